@@ -1,8 +1,10 @@
 #!/bin/bash
-# usage: try_seed.sh <property id> <patch.diff> [tier]   — applies the change to /repo, runs the check, undoes it
-id=$1; patch=$2; tier=${3:-quick}
-cd /verif
-git -C /repo apply $patch || { echo "patch does not apply"; exit 2; }
-bin/check $id --tier $tier; rc=$?
-git -C /repo checkout -- .
-echo "try_seed $id $(basename $(dirname $patch)): rc=$rc"
+# try_seed.sh <patch.diff> <property>...   apply the change to /repo, run the quick checks, undo it straight afterwards
+P="$1"; shift
+[ -z "$(git -C /repo status --porcelain)" ] || { echo "/repo not clean"; exit 2; }
+git -C /repo apply "$P" || exit 2
+trap 'git -C /repo checkout -- . ; git -C /repo clean -qfd' EXIT
+for id in "$@"; do
+  /verif/bin/check "$id" --tier "${TIER:-quick}" > /tmp/try-$id.log 2>&1; rc=$?
+  echo "--- $id rc=$rc"; grep -E "VIOLATION|KNOWN-FINDING|^OK|engine .*:" /tmp/try-$id.log | cut -c1-400 | tail -8
+done
